@@ -300,8 +300,20 @@ def classify(S, mode, d, k):
 # ------------------------------------------------------------------------------------------------
 # generation
 # ------------------------------------------------------------------------------------------------
+NAN_SPELLINGS = ["np.nan", "float", "f64", "f32", "None", "pd.NA"]
+
+
+def nan_marker(name):
+    """the object the caller uses to designate missing values: pandas.isna is True for all of them and
+    update_discretizer must treat them alike (the model sees VNaN)"""
+    import pandas as pd
+    return {"np.nan": np.nan, "float": float("nan"), "f64": np.float64("nan"), "f32": np.float32("nan"),
+            "None": None, "pd.NA": pd.NA}.get(name, np.nan)
+
+
 def abstract(rng, op):
-    return {"op": op, "a": rng.randrange(1000), "b": rng.randrange(1000), "c": rng.randrange(1000)}
+    return {"op": op, "a": rng.randrange(1000), "b": rng.randrange(1000), "c": rng.randrange(1000),
+            "m": rng.choice(NAN_SPELLINGS)}
 
 
 def gen_case17(rng, stream, cls=None, prefer=None):
@@ -572,7 +584,8 @@ class C17(Prop):
             "NaN share 0-30%, output_dtype str/float, dropna True/False, 15% rebuilt from JSON) + a "
             "history of 1-8 update_discretizer calls on one fitted feature, resolved against the "
             "current order: adjacent groups (ordered features), any two groups (categorical), a new "
-            "modality or NaN into an existing group, 'replace' by a fresh value / a member, no-op "
+            "modality or NaN (spelled numpy.nan / float('nan') / numpy.float64 / numpy.float32 / None / "
+            "pandas.NA, drawn per edit) into an existing group, 'replace' by a fresh value / a member, no-op "
             "edits; separate streams end with a NaN edit when NaN is already merged (O8b) or a "
             "quantitative downward merge (O8c); a malformed stream (mode typo, kept missing / unknown, "
             "discarded not a leader, the sentinel string, non adjacent merges, ...) compares outcome "
@@ -675,10 +688,15 @@ class C17(Prop):
             ed = {"op": ab["op"], "mode": mode, "d": enc(d), "k": enc(k), "class": cl, "valid": valid,
                   "rows": not (kind == "quant" and mode == "replace")}
             exc_edit = None
+            # missing values are designated with the spelling drawn for this edit
+            d_arg = nan_marker(ab.get("m")) if C.is_nan(d) else d
+            k_arg = nan_marker(ab.get("m")) if C.is_nan(k) else k
+            if C.is_nan(d) or C.is_nan(k):
+                ed["nan_spelling"] = ab.get("m", "np.nan")
             try:
                 with warnings.catch_warnings(record=True) as w:
                     warnings.simplefilter("always")
-                    obj.update_discretizer(f, mode, d, k)
+                    obj.update_discretizer(f, mode, d_arg, k_arg)
                 oc = "warn" if any("already grouped" in str(x.message) for x in w) else "done"
             except AssertionError as e:
                 oc, exc_edit = "assert", f"AssertionError: {str(e)[:120]}"
@@ -948,6 +966,8 @@ class C17(Prop):
                 d["nan_in_order"] += 1
             for e, ob in zip(o["edits"], o["obs"]):
                 inc(d["resolved_ops"], e["op"])
+                if "nan_spelling" in e:
+                    inc(d.setdefault("nan_spellings", {}), e["nan_spelling"])
                 inc(d["edit_classes"], e["class"])
                 inc(d["outcomes"], ob["oc"])
                 if isinstance(ob["out"], str):
